@@ -2396,7 +2396,9 @@ bool NifFile::GetNodeTransformToGlobal(const std::string& nodeName, MatTransform
 
 		MatTransform xform = node->GetTransformToParent();
 		NiNode* parent = GetParentNode(node);
-		while (parent) {
+		// Stop when a parent repeats: a cycle in the node graph must not hang the walk
+		std::set<NiNode*> visited{node};
+		while (parent && visited.insert(parent).second) {
 			xform = parent->GetTransformToParent().ComposeTransforms(xform);
 			parent = GetParentNode(parent);
 		}
